@@ -1,14 +1,21 @@
+// Probe for DESIGN §4 C15-R1: classify every range-over-map in astool.
 package main
 
 import (
 	"fmt"
 	"go/ast"
+	"go/token"
 	"go/types"
 	"os"
 	"sort"
+	"strings"
 
 	"golang.org/x/tools/go/packages"
 )
+
+type site struct {
+	pos, fn, expr, class, why string
+}
 
 func main() {
 	cfg := &packages.Config{Mode: packages.LoadSyntax, Dir: "/repo"}
@@ -16,29 +23,168 @@ func main() {
 	if err != nil {
 		panic(err)
 	}
-	var out []string
+	var out []site
 	for _, p := range pkgs {
+		info := p.TypesInfo
 		for _, f := range p.Syntax {
-			ast.Inspect(f, func(n ast.Node) bool {
-				rs, ok := n.(*ast.RangeStmt)
-				if !ok {
-					return true
+			for _, d := range f.Decls {
+				fd, ok := d.(*ast.FuncDecl)
+				if !ok || fd.Body == nil {
+					continue
 				}
-				t := p.TypesInfo.TypeOf(rs.X)
-				if t == nil {
+				// collect slices sorted in this function: objects passed (possibly via conversion) to sort.*
+				sorted := map[types.Object]bool{}
+				ast.Inspect(fd.Body, func(n ast.Node) bool {
+					c, ok := n.(*ast.CallExpr)
+					if !ok {
+						return true
+					}
+					sel, ok := c.Fun.(*ast.SelectorExpr)
+					if !ok {
+						return true
+					}
+					if id, ok := sel.X.(*ast.Ident); ok {
+						if pn, ok := info.Uses[id].(*types.PkgName); ok && pn.Imported().Path() == "sort" && len(c.Args) > 0 {
+							a := c.Args[0]
+							for {
+								if cc, ok := a.(*ast.CallExpr); ok && len(cc.Args) == 1 {
+									a = cc.Args[0] // conversion wrapper
+									continue
+								}
+								break
+							}
+							if id, ok := a.(*ast.Ident); ok {
+								sorted[info.ObjectOf(id)] = true
+							}
+						}
+					}
 					return true
-				}
-				if _, ok := t.Underlying().(*types.Map); ok {
+				})
+				ast.Inspect(fd.Body, func(n ast.Node) bool {
+					rs, ok := n.(*ast.RangeStmt)
+					if !ok {
+						return true
+					}
+					t := info.TypeOf(rs.X)
+					if t == nil {
+						return true
+					}
+					if _, ok := t.Underlying().(*types.Map); !ok {
+						return true
+					}
 					pos := p.Fset.Position(rs.Pos())
-					out = append(out, fmt.Sprintf("%s:%d %s", pos.Filename, pos.Line, types.ExprString(rs.X)))
-				}
-				return true
-			})
+					s := site{pos: fmt.Sprintf("%s:%d", strings.TrimPrefix(pos.Filename, "/repo/"), pos.Line), fn: fd.Name.Name, expr: types.ExprString(rs.X)}
+					// classify body
+					commutative := true
+					var appended []types.Object
+					var why []string
+					var visit func(st ast.Stmt)
+					visit = func(st ast.Stmt) {
+						switch x := st.(type) {
+						case *ast.AssignStmt:
+							for i, l := range x.Lhs {
+								switch lx := l.(type) {
+								case *ast.IndexExpr:
+									if _, ok := info.TypeOf(lx.X).Underlying().(*types.Map); ok {
+										continue // map insert
+									}
+									commutative = false
+									why = append(why, "index-assign non-map")
+								case *ast.Ident:
+									// append to slice?
+									if i < len(x.Rhs) {
+										if c, ok := x.Rhs[i].(*ast.CallExpr); ok {
+											if fid, ok := c.Fun.(*ast.Ident); ok && fid.Name == "append" {
+												appended = append(appended, info.ObjectOf(lx))
+												continue
+											}
+										}
+									}
+									if x.Tok == token.DEFINE {
+										continue // local temp
+									}
+									commutative = false
+									why = append(why, "assign "+lx.Name)
+								default:
+									commutative = false
+									why = append(why, fmt.Sprintf("assign %T", l))
+								}
+							}
+						case *ast.ExprStmt:
+							if c, ok := x.X.(*ast.CallExpr); ok {
+								if fid, ok := c.Fun.(*ast.Ident); ok && fid.Name == "delete" {
+									return
+								}
+							}
+							commutative = false
+							why = append(why, "call "+types.ExprString(x.X))
+						case *ast.IfStmt:
+							if x.Init != nil {
+								visit(x.Init)
+							}
+							for _, s := range x.Body.List {
+								visit(s)
+							}
+							if x.Else != nil {
+								visit(x.Else)
+							}
+						case *ast.BlockStmt:
+							for _, s := range x.List {
+								visit(s)
+							}
+						case *ast.ForStmt:
+							for _, s := range x.Body.List {
+								visit(s)
+							}
+						case *ast.RangeStmt:
+							for _, s := range x.Body.List {
+								visit(s)
+							}
+						case *ast.BranchStmt, *ast.IncDecStmt, *ast.DeclStmt:
+						case *ast.ReturnStmt:
+							why = append(why, "return-in-loop")
+						default:
+							commutative = false
+							why = append(why, fmt.Sprintf("%T", st))
+						}
+					}
+					for _, st := range rs.Body.List {
+						visit(st)
+					}
+					allSorted := len(appended) > 0
+					for _, o := range appended {
+						if !sorted[o] {
+							allSorted = false
+						}
+					}
+					switch {
+					case commutative && len(appended) == 0:
+						s.class = "a-commutative"
+					case commutative && allSorted:
+						s.class = "b-sorted-after"
+					default:
+						s.class = "c-needs-review"
+						var names []string
+						for _, o := range appended {
+							if !sorted[o] {
+								names = append(names, "unsorted:"+o.Name())
+							}
+						}
+						s.why = strings.Join(append(names, why...), "; ")
+					}
+					out = append(out, s)
+					return true
+				})
+			}
 		}
 	}
-	sort.Strings(out)
-	for _, o := range out {
-		fmt.Println(o)
+	sort.Slice(out, func(i, j int) bool { return out[i].class+out[i].pos < out[j].class+out[j].pos })
+	cnt := map[string]int{}
+	for _, s := range out {
+		cnt[s.class]++
+		if s.class == "c-needs-review" {
+			fmt.Printf("%-16s %-34s %-28s %-24s %s\n", s.class, s.pos, s.fn, s.expr, s.why)
+		}
 	}
-	fmt.Println(len(pkgs), "packages", len(out), "map ranges")
+	fmt.Println(len(pkgs), "packages", len(out), "map ranges", cnt)
 }
